@@ -1340,6 +1340,231 @@ def execute_reject(desc, ctx):
 
 
 # ----------------------------------------------------------------------------------------------------------------
+# edit sessions: re-open a file, parse a mapping/list view, delete / re-key / move / replace entries, save, re-open;
+# the content is compared with a plain model of what the caller stored (entities by position, models by a marker).
+
+_EPROP = {'model': 'models/a.mdl', 'leaves': [0], 'flags': 0, 'origin': [1.0, 2.0, 3.0], 'angles': [0.0, 90.0, 0.0],
+          'solidity': 6, 'skin': 0, 'min_fade': 0.0, 'max_fade': 0.0, 'lighting': [1.0, 2.0, 3.0], 'fade_scale': 1.0,
+          'min_dx': 0, 'max_dx': 0, 'min_cpu': 0, 'max_cpu': 0, 'min_gpu': 0, 'max_gpu': 0, 'lm_x': 32, 'lm_y': 32,
+          'tint': [255, 255, 255], 'renderfx': 255, 'xbox': False, 'scale3': [1.0, 1.0, 1.0]}
+_EDPROP = {'type': 0, 'model': 'models/d.mdl', 'sprite': [0.0, 1.0, 1.0, 0.0, 0.0, 0.0, 1.0, 1.0], 'origin': [0.0, 0.0, 0.0],
+           'angles': [0.0, 0.0, 0.0], 'leaf': 0, 'lighting': [1, 2, 3, 4], 'styles': 0, 'style_count': 0, 'sway': 0,
+           'shape_angle': 0, 'shape_size': 1, 'orient': 0, 'scale': 1.0}
+_EDIT_BLOBS: dict = {}
+
+
+def edit_blob(layout: str) -> bytes:
+    """Base file for the edit sessions: 4 brush models (marker = origin.x), 3 brush entities + one that shares model 1,
+    2 point entities, physics on two models, 3 static props (marker = skin), 3 detail props (marker = leaf), an
+    unknown game lump and two packed files."""
+    if layout not in _EDIT_BLOBS:
+        raw = base_raw(layout)
+        m0 = raw['models'][0]
+        raw['models'] = [dict(m0, origin=[float(k), 0.0, 0.0]) for k in range(4)]
+        raw['model_refs'] = [0]
+        raw['ents'] = [raw['ents'][0],
+                       {'kv': [['classname', 'info_target'], ['targetname', 'p1']], 'outs': []},
+                       {'kv': [['classname', 'info_target'], ['targetname', 'p2'], ['model', 'models/x.mdl']], 'outs': []}]
+        raw['phys'] = [{'model': 1, 'solids': ['0102', ''], 'kv': 'solid\n{\n"index" "0"\n}\n'},
+                       {'model': 3, 'solids': [], 'kv': ''}]
+        raw['sprp'] = dict(raw['sprp'], props=[dict(_EPROP, skin=k, model=f'models/p{k % 2}.mdl') for k in range(3)])
+        raw['dprp'] = dict(raw['dprp'], props=[dict(_EDPROP, leaf=k, type=k, model=f'models/d{k}.mdl') for k in range(3)])
+        raw['extra_gl'] = [{'id': 'xyzw', 'flags': 2, 'ver': 7, 'data': 'deadbeef', 'lzma': False, 'pos': 2}]
+        raw['pak'] = [['a.txt', '6161'], ['dir/b.bin', '0001ff']]
+        _EDIT_BLOBS[layout] = G.build_bsp(G.resolve_world(raw))
+    return _EDIT_BLOBS[layout]
+
+
+EDIT_OP = st.one_of(
+    st.tuples(st.just('bm_del'), SMALL).map(list),                      # del bmodels[ent]
+    st.tuples(st.just('bm_move'), SMALL, SMALL).map(list),              # bmodels[dst] = bmodels.pop(src)
+    st.tuples(st.just('bm_share'), SMALL, SMALL).map(list),             # bmodels[dst] = bmodels[src]
+    st.tuples(st.just('bm_new'), SMALL).map(list),                      # bmodels[ent] = BModel(...)
+    st.tuples(st.just('prop_del'), SMALL).map(list),
+    st.tuples(st.just('prop_move'), SMALL, SMALL).map(list),
+    st.just(['prop_clear']),
+    st.tuples(st.just('detail_del'), SMALL).map(list),
+    st.tuples(st.just('detail_move'), SMALL, SMALL).map(list),
+    st.tuples(st.just('gl_del'), st.sampled_from(['xyzw', 'abcd'])).map(list),
+    st.tuples(st.just('gl_add'), st.sampled_from(['abcd', 'efgh']), st.binary(max_size=8).map(bytes.hex)).map(list),
+    st.tuples(st.just('pak_drop'), SMALL).map(list),                    # new archive without one file
+    st.tuples(st.just('pak_add'), st.sampled_from(['n1.txt', 'dir/n2']), st.binary(max_size=8).map(bytes.hex)).map(list),
+)
+
+
+def strat_edits(tier):
+    return st.fixed_dictionaries({
+        'layout': LAYOUT,
+        'sessions': st.lists(st.lists(EDIT_OP, min_size=1, max_size=5), min_size=1, max_size=2),
+    })
+
+
+def execute_edits(desc, ctx):
+    import zipfile
+    from srctools.bsp import BSP, BModel, GameLump
+    layout = desc['layout']
+    ctx.label('layout:' + layout)
+    l4d2 = G.LAYOUTS[layout].l4d2
+    by_val = ('Face', 'Primitive')
+    # ---- the model of the intended content
+    m_bm = {0: 0, 1: None, 2: None, 3: 1, 4: 2, 5: 3, 6: 1}        # entity position -> model marker (None: no brush model)
+    # positions: 0 worldspawn, 1-2 point entities, 3-5 func_brush *1..*3, 6 shares *1  (see resolve_world)
+    m_props = [0, 1, 2]
+    m_detail = [0, 1, 2]
+    m_gl = {'xyzw': (2, 7, 'deadbeef')}
+    m_pak = {'a.txt': '6161', 'dir/b.bin': '0001ff'}
+    new_marker = 100
+    ctx.nontrivial(sum(len(x) for x in desc['sessions']) >= 2)
+    with tempfile.TemporaryDirectory(prefix='c11_') as td:
+        cur = os.path.join(td, 'in.bsp')
+        with open(cur, 'wb') as f:
+            f.write(edit_blob(layout))
+        for sno, ops in enumerate(desc['sessions']):
+            bsp = BSP(cur)
+            ents = [bsp.ents.spawn] + list(bsp.ents.entities)
+            if len(ents) != len(m_bm):
+                raise HarnessError(f'entity count {len(ents)}')
+            bm = None
+            for op in ops:
+                kind = op[0]
+                if kind.startswith('bm_'):
+                    if bm is None:
+                        bm = bsp.bmodels
+                    owners = [e for e in range(len(ents)) if m_bm[e] is not None]
+                    if kind == 'bm_del':
+                        cand = [e for e in owners if e != 0]
+                        if cand:
+                            e = cand[op[1] % len(cand)]
+                            del bm[ents[e]]
+                            m_bm[e] = None
+                            ctx.label('edit:bm_del')
+                    elif kind == 'bm_move':
+                        cand = [e for e in owners if e != 0]
+                        if cand:
+                            src_e = cand[op[1] % len(cand)]
+                            dst_e = [e for e in range(len(ents)) if e != src_e][op[2] % (len(ents) - 1)]
+                            bm[ents[dst_e]] = bm.pop(ents[src_e])
+                            m_bm[dst_e], m_bm[src_e] = m_bm[src_e], None
+                            ctx.label('edit:bm_move')
+                    elif kind == 'bm_share':
+                        src_e = owners[op[1] % len(owners)]
+                        dst_e = op[2] % len(ents)
+                        bm[ents[dst_e]] = bm[ents[src_e]]
+                        m_bm[dst_e] = m_bm[src_e]
+                        ctx.label('edit:bm_share')
+                    else:
+                        e = op[1] % len(ents)
+                        old = bm[ents[owners[0]]]
+                        bm[ents[e]] = BModel(mk_vec([0.0, 0.0, 0.0]), mk_vec([8.0, 8.0, 8.0]), mk_vec([float(new_marker), 0.0, 0.0]),
+                                             old.node, list(old.faces))
+                        m_bm[e] = new_marker
+                        new_marker += 1
+                        ctx.label('edit:bm_new')
+                elif kind.startswith('prop_'):
+                    props = bsp.props
+                    if kind == 'prop_clear':
+                        props.clear()
+                        m_props = []
+                    elif props:
+                        i = op[1] % len(props)
+                        if kind == 'prop_del':
+                            del props[i]
+                            del m_props[i]
+                        else:
+                            j = op[2] % len(props)
+                            props.insert(j, props.pop(i))
+                            m_props.insert(j, m_props.pop(i))
+                    ctx.label('edit:' + kind)
+                elif kind.startswith('detail_'):
+                    det = bsp.detail_props
+                    if det:
+                        i = op[1] % len(det)
+                        if kind == 'detail_del':
+                            del det[i]
+                            del m_detail[i]
+                        else:
+                            j = op[2] % len(det)
+                            det.insert(j, det.pop(i))
+                            m_detail.insert(j, m_detail.pop(i))
+                    ctx.label('edit:' + kind)
+                elif kind == 'gl_del':
+                    if op[1] in m_gl:
+                        del bsp.game_lumps[op[1].encode()]
+                        del m_gl[op[1]]
+                        ctx.label('edit:gl_del')
+                elif kind == 'gl_add':
+                    bsp.game_lumps[op[1].encode()] = GameLump(op[1].encode(), 4, 3, bytes.fromhex(op[2]))
+                    m_gl.pop(op[1], None)
+                    m_gl[op[1]] = (4, 3, op[2])
+                    ctx.label('edit:gl_add')
+                else:
+                    if kind == 'pak_drop' and m_pak:
+                        del m_pak[sorted(m_pak)[op[1] % len(m_pak)]]
+                    elif kind == 'pak_add':
+                        m_pak[op[1]] = op[2]
+                    zf = zipfile.ZipFile(io.BytesIO(), 'w')
+                    for name in sorted(m_pak):
+                        zf.writestr(name, bytes.fromhex(m_pak[name]))
+                    bsp.pakfile = zf
+                    ctx.label('edit:' + kind)
+            want_models = None
+            if bm is not None:
+                want_models = {e: G.canon(bm[ents[e]], by_value=by_val) for e in range(len(ents)) if m_bm[e] is not None}
+                if set(want_models) != {e for e in range(len(ents)) if ents[e] in bm}:
+                    raise HarnessError('reference model and mapping disagree')
+            out = os.path.join(td, f'out{sno}.bsp')
+            save_quiet(bsp, out)
+            # ---- fresh session on the written file
+            tag = f'{layout} session {sno + 1}/{len(desc["sessions"])} ops={ops}'
+            b2 = BSP(out)
+            ents2 = [b2.ents.spawn] + list(b2.ents.entities)
+            ctx.check(len(ents2) == len(ents), 'edit:entities', f'{tag}: {len(ents)} entities became {len(ents2)}')
+            keys = [e['model'] for e in ents2]
+            for e, key in enumerate(keys):
+                has = key.startswith('*')
+                if not ctx.check(has == (m_bm[e] is not None) or e == 0, 'edit:bmodel_owner',
+                                 f'{tag}: entity #{e} ({ents2[e]["classname"]}) was stored '
+                                 f'{"with" if m_bm[e] is not None else "WITHOUT"} a brush model and re-reads with model={key!r}',
+                                 op=ops[0][0]):
+                    return
+            got_bm = b2.bmodels
+            got = {}
+            for e, ent in enumerate(ents2):
+                if ent in got_bm:
+                    got[e] = got_bm[ent]
+            want_markers = {e: float(m) for e, m in m_bm.items() if m is not None}
+            got_markers = {e: m.origin.x for e, m in got.items()}
+            ctx.check(got_markers == want_markers, 'edit:bmodel_mapping',
+                      f'{tag}: entity -> brush model (marker origin.x) stored {want_markers}, re-read {got_markers}', op=ops[0][0])
+            if want_models is not None:
+                for e, wc in want_models.items():
+                    gc = G.canon(got[e], by_value=by_val)
+                    if wc != gc:
+                        ctx.fail('edit:bmodel_content', f'{tag}: brush model of entity #{e} differs: {G.first_diff(wc, gc)}')
+            for e in range(len(ents2)):        # sharing is kept
+                for e2 in range(e):
+                    if m_bm[e] is not None and m_bm[e2] is not None:
+                        ctx.check((got[e] is got[e2]) == (m_bm[e] == m_bm[e2]), 'edit:bmodel_sharing',
+                                  f'{tag}: entities #{e2}/#{e} share={got[e] is got[e2]}, stored markers {m_bm[e2]}/{m_bm[e]}')
+            ctx.check([p.skin for p in b2.props] == m_props, 'edit:props',
+                      f'{tag}: static props (marker skin) stored {m_props}, re-read {[p.skin for p in b2.props]}')
+            ctx.check([p.leaf for p in b2.detail_props] == m_detail, 'edit:detail_props',
+                      f'{tag}: detail props (marker leaf) stored {m_detail}, re-read {[p.leaf for p in b2.detail_props]}')
+            kinds = [type(p).__name__ for p in b2.detail_props]
+            want_kinds = [['DetailPropModel', 'DetailPropSprite', 'DetailPropShape'][k] for k in m_detail]
+            ctx.check(kinds == want_kinds, 'edit:detail_props', f'{tag}: detail prop kinds {kinds} != {want_kinds}')
+            with open(out, 'rb') as f:
+                cont = G.read_container(f.read(), l4d2)
+            got_gl = {g['id'].decode(): (g['flags'], g['version'], g['data'].hex()) for g in cont['game_lumps']
+                      if g['id'] not in (b'sprp', b'dprp')}
+            ctx.check(got_gl == m_gl, 'edit:game_lumps', f'{tag}: game lumps stored {m_gl}, file has {got_gl}')
+            zf2 = b2.pakfile
+            got_pak = {n: zf2.read(n).hex() for n in zf2.namelist()}
+            ctx.check(got_pak == m_pak, 'edit:pakfile', f'{tag}: packed files stored {m_pak}, re-read {got_pak}')
+            cur = out
+
+
+# ----------------------------------------------------------------------------------------------------------------
 
 _LAYOUTS = tuple('layout:' + n for n in G.MAIN_LAYOUTS)
 _LAYOUTS_NOVIT = tuple(x for x in _LAYOUTS if x != 'layout:v43')
@@ -1375,6 +1600,8 @@ SUBCHECKS = [
     S('detail', execute_detail, strat_detail, 400, 8000, must=('detail:model', 'detail:sprite', 'detail:shape',
                                                                'detail:cross', 'shared_sprite')),
     S('pakfile', execute_pakfile, strat_pakfile, 100, 2000, floor=5, must=('pak:new', 'pak:append')),
+    S('edits', execute_edits, strat_edits, 400, 8000, must=('edit:bm_del', 'edit:bm_move', 'edit:bm_share', 'edit:bm_new', 'edit:prop_del',
+                                                       'edit:prop_move', 'edit:detail_del', 'edit:gl_del', 'edit:gl_add', 'edit:pak_drop')),
     S('reject', execute_reject, strat_reject, 400, 6000, floor=20, layouts=_LAYOUTS_NOVIT,
       must=tuple('kind:' + k for k in REJECT_KINDS) + ('rejected',)),
 ]
